@@ -30,6 +30,9 @@ def _n(t, env, wide):
         if name.startswith("core::num::<impl ") and name.split("::")[-1] in ("to_be_bytes", "to_le_bytes", "from_be_bytes", "from_le_bytes"):
             ity = name[len("core::num::<impl "):].split(">")[0]
             return (name.split("::")[-1].replace("_bytes", "").replace("_", ""), ity, _n(t[2][0], env, wide))
+    if k == "unop" and t[1] == "Not" and t[2][0] == "int" and len(t[2]) > 2 and t[2][2] in ("u8", "u16", "u32", "u64", "usize"):
+        bits = {"u8": 8, "u16": 16, "u32": 32, "u64": 64, "usize": 64}[t[2][2]]
+        return ("int", (~t[2][1]) & ((1 << bits) - 1))
     if k == "binop":
         op = t[1]
         a, b = _n(t[2], env, wide), _n(t[3], env, wide)
